@@ -42,7 +42,10 @@ def main(tier):
     chk.rule("PS-3", "pool-tagged arguments bind the same pool's parameters", floor=10)
     chk.rule("BIND", "array results of pool-ordered functions are bound to matching pools", floor=1)
     chk.rule("COHERE", "per-pool tree calls and closures use one pool's operands", floor=12)
-    chk.rule("RETAIN", "the anchor-retention policy reaches every pool's update", floor=4)
+    chk.rule("RETAIN", "the anchor-retention policy reaches every pool's update", floor=6)
+    chk.rule("SAMEHT", "the pools' checkpoints are established under the same tests", floor=2)
+    chk.rule("POSN", "a newly observed tree position replaces the stored one", floor=2)
+    chk.rule("SHARD", "only put_shard replaces the contents of an existing shard", floor=3)
     chk.rule("control", "positive controls", floor=1)
     ps_rules.ps1(chk, FILES)
     ps_rules.ps2(chk, FILES)
@@ -67,7 +70,211 @@ def main(tier):
     bind(chk, w, pb)
     cohere(chk, w, pb)
     retain(chk, w, pb)
+    retain_copy(chk, w)
+    same_heights(chk, w)
+    posn(chk, w)
+    shard_writers(chk, w)
     chk.finish()
+
+
+ESTABLISH = r"::(insert_frontier|insert_frontier_nodes|update_tree|checkpoint|batch_insert|append)(::<.*>)?$"
+
+
+def same_heights(chk, w):
+    """SAMEHT: "all shielded pools are checkpointed at the same heights". Wherever one function
+    establishes checkpoints in several pools' trees (the closure it hands to with_<pool>_tree_mut inserts
+    a frontier / applies update_tree), the calls for the different pools run under the SAME tests: a
+    test guarding one pool's call and not another's (for instance one on that pool's own frontier)
+    lets the checkpoint heights of the pools diverge. Early error returns (`?`) are not tests: they
+    abandon the whole database transaction (C02)."""
+    import guards
+    n = 0
+    for f in sorted(w.fns.values(), key=lambda f: f.p):
+        if f.is_closure() or f.body is None or "::tests::" in f.p or "::testing" in f.p or \
+                f.crate.name not in ("zcash_client_sqlite", "zcash_client_backend"):
+            continue
+        sites = {}
+        b = f.body
+        for bb, t in b.calls():
+            if b.blocks[bb].cleanup or t.callee.indirect is not None:
+                continue
+            m = re.search(r"::with_(sapling|orchard|ironwood)_tree_mut(::<.*>)?$", t.callee.target_p())
+            if not m:
+                continue
+            # does the closure establish checkpoints?
+            est = False
+            for c in w.callees(f.id):
+                g = w.fns.get(c)
+                if g is None or not g.is_closure() or g.root != f.id or g.span.line != t.span.line and \
+                        not (t.span.line <= g.span.line <= t.span.endline):
+                    continue
+                for _b2, t2 in g.body.calls():
+                    if t2.callee.indirect is None and re.search(ESTABLISH, t2.callee.target_p()):
+                        est = True
+            if est:
+                sites.setdefault(m.group(1), []).append((bb, t))
+        if len(sites) < 2:
+            continue
+        du = defuse.DefUse(b)
+        conds = {}
+        for pool, lst in sites.items():
+            for bb, t in lst:
+                cs = set()
+                for sw, v, _tb in guards.edge_conditions(b, bb):
+                    tm = b.blocks[sw].term
+                    if tm.span.has_macro("desugar:QuestionMark"):
+                        continue
+                    o = du.origin(tm.discr) if tm.discr is not None and tm.discr.kind in ("copy", "move") else None
+                    cs.add("%s == %s" % (defuse.show(o)[:160] if o else "?", v))
+                conds.setdefault(pool, []).append(cs)
+        n += 1
+        ref_pool = sorted(conds)[0]
+        ref = conds[ref_pool]
+        bad = [(p_, c) for p_, cl in conds.items() for c in cl if c not in ref or len(cl) != len(ref)]
+        fname = f.p.split(" as ")[0].lstrip("<")[-70:]
+        if not bad:
+            chk.ok("SAMEHT", "%s: the %s trees are checkpointed under the same tests (%d shared)" %
+                   (fname, "/".join(sorted(conds)), len(ref[0]) if ref else 0), sample=True)
+        else:
+            p_, c = bad[0]
+            extra = sorted(c - ref[0]) or sorted(ref[0] - c)
+            chk.fail("SAMEHT", "%s/%s" % (f.p, p_), "the %s tree is checkpointed under a test the %s tree's "
+                     "checkpoint does not share: %s" % (p_, ref_pool, "; ".join(extra)[:300]),
+                     sites[p_][0][1].span.loc())
+    if n == 0:
+        chk.fail("SAMEHT", "missing", "no function establishing checkpoints in several pools was found")
+
+
+def posn(chk, w):
+    """POSN: a witness is produced at the position the wallet stored for the note. When a note is seen
+    again (a rescan after a rewind or reorg can place it elsewhere) the newly observed position must
+    replace the stored one in every pool's upsert: `commitment_tree_position = IFNULL(:p, p)`."""
+    import sqlfx
+    fx = sqlfx.SqlFx(w, extract.REPO)
+    n = 0
+    for f in sorted(w.fns.values(), key=lambda f: f.p):
+        if not re.match(r"zcash_client_sqlite::wallet::(sapling|orchard)::put_received_note$", f.p):
+            continue
+        for text in sorted({x[3] for x in fx.sites.get(f.id, [])}):
+            m = re.search(r"ON CONFLICT.*?DO UPDATE\s+SET(.*?)(RETURNING|WHERE|$)", text, re.S)
+            if not m:
+                continue
+            mm = re.search(r"\bcommitment_tree_position\s*=\s*([^\n]*?)\s*,?\s*(\n|$)", m.group(1))
+            expr = re.sub(r"\s+", " ", mm.group(1)).rstrip(",") if mm else None
+            n += 1
+            if expr and re.match(r"^(IFNULL|COALESCE)\(\s*:commitment_tree_position\s*,\s*commitment_tree_position\s*\)$", expr, re.I):
+                chk.ok("POSN", "%s: on conflict a newly observed tree position replaces the stored one" % f.p, sample=True)
+            else:
+                chk.fail("POSN", f.p, "on conflict the note's tree position becomes `%s`: a newly observed position "
+                         "does not replace the stored one, so a re-scanned note is witnessed at a stale position" % expr,
+                         f.span.loc())
+    if n < 2:
+        chk.fail("POSN", "missing", "expected the Sapling and the Orchard-protocol received-note upserts, found %d" % n)
+
+
+def retain_copy(chk, w):
+    """RETAIN (handles): every WalletDb value built from another WalletDb (the transactional handles
+    through which put_blocks runs) carries the other's anchor_retention_interval; a handle that falls
+    back to the default interval makes scans retain a different grid than the wallet was configured
+    for."""
+    n = 0
+    for f in sorted(w.fns.values(), key=lambda f: f.p):
+        if f.body is None or "::tests::" in f.p or "::testing" in f.p or f.crate.name != "zcash_client_sqlite":
+            continue
+        b = f.body
+        du = None
+        for bi, blk in enumerate(b.blocks):
+            if blk.cleanup:
+                continue
+            for s_ in blk.stmts:
+                if not (s_.kind == "=" and s_.rv.kind == "agg" and s_.rv.agg[0] == "adt" and
+                        s_.rv.agg[1] == "zcash_client_sqlite::WalletDb"):
+                    continue
+                fields = list(s_.rv.agg[3])
+                if "anchor_retention_interval" not in fields:
+                    continue
+                du = du or defuse.DefUse(b)
+                org = {fl: defuse.strip_refs(du.origin(op)) for fl, op in zip(fields, s_.rv.ops)}
+                # is some other field taken from the same-named field of an existing WalletDb?
+                src = None
+                for fl, o in org.items():
+                    x = o
+                    while x and x[0] in ("ref", "deref"):
+                        x = x[1]
+                    if x and x[0] == "field" and x[2] == "." + fl and fl != "anchor_retention_interval":
+                        src = defuse.strip_refs(x[1])
+                if src is None:
+                    continue
+                n += 1
+                o = org["anchor_retention_interval"]
+                good = o[0] == "field" and o[2] == ".anchor_retention_interval" and defuse.strip_refs(o[1]) == src
+                fname = f.p.split(" as ")[0].lstrip("<")[-60:]
+                if good:
+                    chk.ok("RETAIN", "%s: the derived WalletDb handle carries the source's anchor_retention_interval" % fname,
+                           sample=True)
+                else:
+                    chk.fail("RETAIN", "%s/handle" % f.p, "a WalletDb handle derived from %s takes its "
+                             "anchor_retention_interval from `%s`" % (defuse.show(src), defuse.show(o)[:80]), s_.span.loc())
+    if n < 2:
+        chk.fail("RETAIN", "handles/missing", "expected at least two derived WalletDb handles (transactionally, "
+                 "with_extension_tables ...), found %d" % n)
+
+
+def shard_writers(chk, w):
+    """SHARD: the persisted contents of a shard (`shard_data`) are what the wallet has scanned into it.
+    Inserting a subtree ROOT for a shard that already exists must leave those contents alone (only the
+    cached root hash and end height change), otherwise every witness through the shard is lost or wrong.
+    Who may overwrite `shard_data` of an existing row: put_shard only, with the serialisation of the
+    subtree it was handed."""
+    import sqlfx
+    fx = sqlfx.SqlFx(w, extract.REPO)
+    writers, seen = {}, 0
+    for fid, sites in fx.sites.items():
+        f = w.fns[fid]
+        if "::tests::" in f.p or "::testing" in f.p or "::migrations::" in f.p:
+            continue
+        for text in sorted({x[3] for x in sites}):
+            if not re.search(r"_tree_shards\b", text):
+                continue
+            flat = re.sub(r"\s+", " ", text)
+            cols = set()
+            m = re.search(r"INSERT INTO \S*_tree_shards\b.*?ON CONFLICT.*?DO UPDATE SET (.*?)( WHERE | RETURNING |$)", flat, re.I)
+            if m:
+                cols |= {c.split("=")[0].strip() for c in m.group(1).split(",") if "=" in c}
+            m = re.search(r"\bUPDATE \S*_tree_shards\b.*? SET (.*?)( WHERE |$)", flat, re.I)
+            if m:
+                cols |= {c.split("=")[0].strip() for c in m.group(1).split(",") if "=" in c}
+            if re.search(r"\b(INSERT|UPDATE)\b[^;]*_tree_shards", flat, re.I) and \
+                    not re.match(r"^\s*UPDATE \S*_received_notes", flat, re.I):
+                seen += 1
+                writers[f.p] = writers.get(f.p, set()) | cols
+    ps = "zcash_client_sqlite::wallet::commitment_tree::put_shard"
+    pr = "zcash_client_sqlite::wallet::commitment_tree::put_shard_roots"
+    if ps not in writers or pr not in writers:
+        chk.fail("SHARD", "missing", "put_shard / put_shard_roots upserts into the shards table not found (found %s)"
+                 % sorted(writers))
+        return
+    over = sorted(p_ for p_, c in writers.items() if "shard_data" in c)
+    if over == [ps]:
+        chk.ok("SHARD", "only put_shard overwrites the shard_data of an existing shard (%d statements on the shards "
+               "table examined)" % seen, sample=True)
+    else:
+        chk.fail("SHARD", "overwrite", "shard_data of an existing shard is overwritten by %s; only put_shard may "
+                 "replace scanned shard contents" % over, w.fn(pr).span.loc())
+    if writers[pr] == {"subtree_end_height", "root_hash"}:
+        chk.ok("SHARD", "put_shard_roots: for an existing shard only subtree_end_height and root_hash change")
+    else:
+        chk.fail("SHARD", "put_shard_roots/columns", "inserting a subtree root for an existing shard updates %s"
+                 % sorted(writers[pr]), w.fn(pr).span.loc())
+    # put_shard stores the serialisation of the subtree it was given
+    f = w.fn(ps)
+    du = defuse.DefUse(f.body)
+    ws = [t for _bb, t in f.body.calls() if t.callee.indirect is None and t.callee.target_p().endswith("::write_shard")]
+    good = len(ws) == 1 and "arg2" in defuse.show(du.origin(ws[0].args[1]))
+    if good:
+        chk.ok("SHARD", "put_shard serialises the root of the subtree it was handed (one write_shard call)")
+    else:
+        chk.fail("SHARD", "put_shard/source", "put_shard does not serialise its own subtree argument", f.span.loc())
 
 
 def bind(chk, w, pb):
